@@ -116,7 +116,8 @@ def impl(case):
     if api == "uparea_after_add_pits":
         flw = make_raster(call["ds0"])
         call_impl(flw.upstream_area, "cell")            # a first query on the old network
-        st, _ = call_impl(flw.add_pits, idxs=np.array([call["newpit"]]))
+        # every other request names the new pit twice (two gauges in one cell): it is still one pit (round-5 seed)
+        st, _ = call_impl(flw.add_pits, idxs=np.array([call["newpit"]] * (1 + (call["newpit"] + n) % 2)))
         if st != "ok":
             return [[-2], [st]]
         return outl(*call_impl(flw.upstream_area, "cell"))
@@ -124,13 +125,15 @@ def impl(case):
         # 100 m cells are one hectare each: the second call in a metric unit must still be the cell count
         flw = make_raster(ds, transform=Affine(100.0, 0.0, 0.0, 0.0, -100.0, 0.0))
         call_impl(flw.upstream_area, "ha")
-        st, v = call_impl(flw.upstream_area, "ha")
+        st, v = call_impl(flw.upstream_area, ["ha", "Ha", "HA"][sum(ds) % 3])        # unit names are case-insensitive
         if st == "ok" and np.any((np.asarray(v) < 0) & (np.asarray(v) != -9999)):
             return [[-3], ["cells outside the network are not -9999 after a unit conversion"]]
         return outl(st, v)
     if api == "uparea_cell":
-        flw = make_raster(ds)
-        return outl(*call_impl(flw.upstream_area, "cell"))
+        # counting cells does not depend on the cell size or on the spelling of the unit (round-5 seed)
+        sel = sum(ds) % 4
+        flw = make_raster(ds) if sel == 0 else make_raster(ds, transform=Affine(100.0 * sel, 0.0, 0.0, 0.0, -50.0 * sel, 0.0))
+        return outl(*call_impl(flw.upstream_area, ["cell", "Cell", "CELL", "cell"][sel]))
     if api == "vector_uparea":
         kwv = {"cache": bool(call.get("cache", 1))}
         if call.get("area"):
